@@ -236,7 +236,8 @@ def file_items(fmt):
     d1, d2 = c[0][2], c[5][2]
     items = {"D1": d1, "D2": d2, "BLANK": "", "SPACES": "   "}
     if fmt == "krome":
-        items.update({"HASH": "# a comment", "SLASH": "// a comment", "FORMAT": "@format:idx,R,R,R,P,P,P,P,Tmin,Tmax,rate", "VAR": "@var: foo = 1d0", "COMMON": "@common: user_crate"})
+        items.update({"HASH": "# a comment", "SLASH": "// a comment", "FORMAT": "@format:idx,R,R,R,P,P,P,P,Tmin,Tmax,rate", "VAR": "@var: foo = 1d0", "COMMON": "@common: user_crate",
+                      "HASHDIRECTIVE": "#@format:idx,R,P,rate", "SLASHDIRECTIVE": "//@var: foo = 2d0"})  # commented-out directives are comments
     return items
 
 
@@ -293,6 +294,12 @@ def run_files(arg):
                     for k, r in zip(order, net.reaction_list):
                         if sorted(s.name for s in r.reactants) != (e1 if k == "D1" else e2):
                             viols.append((f"C07:file-order:{fmt}", f"{fmt} file {arr}: reactions out of file order", {"fmt": fmt, "arrangement": list(arr)}))
+                            break
+                        # the neighbouring lines must not change how a data line is decoded
+                        bad = compare(fmt, ref[0][1] if k == "D1" else ref[5][1], observe(r))
+                        if bad:
+                            kinds = kinds_of(arr)
+                            viols.append((f"C07:file-decoding:{fmt}:{'+'.join(kinds) or 'data-only'}:{'+'.join(bad)}", f"{fmt} file {arr}: data line {k} decoded differently inside this file: fields {bad}", {"fmt": fmt, "arrangement": list(arr), "trailing_nl": trailing_nl}))
                             break
         return fmt, n, viols
     finally:
